@@ -267,6 +267,12 @@ def run(rep, tier, seed, pa):
             spec = spec[:4] + ("abs",) + spec[5:]
         mode = rng.choice(["exact", "exact", "fast", "soft"])
         sname = rng.choice(["stat", "shuffle-int", "shuffle-float"])
+        windowed = ri % 20 == 7
+        if windowed:
+            # fast mode only takes its windowed route on a continuum that is large enough (4+ annotators x 10+ units); below, it is the exact route
+            n = rng.choice([4, 4, 5])
+            units = gen.gen_units(rng, n, [rng.randrange(10, 14) for _ in range(n)], rng.choice(["perturbed", "perturbed", "random"]), gen.LABEL_SETS["abc"])
+            mode, identical = "fast", False
         # named levels: "high" (1 %) asks for thousands of samples, so it is drawn rarely and only in thorough
         prec = rng.choice([None, None, 0.9, 0.5, 0.3, 0.2, 0.1, "low", "low", "medium"] if tier == "thorough" else [None, None, 0.9, 0.5, 0.3, 0.2, "low"])
         if tier == "thorough" and rng.random() < 0.02:
@@ -279,9 +285,12 @@ def run(rep, tier, seed, pa):
         npseed = rng.randrange(2 ** 31)
         desc = {"units": units, "dissim": spec, "mode": mode, "sampler": sname, "precision": prec, "n_samples": n_samples,
                 "ground_truth": gt, "numpy_seed": npseed}
+        if windowed:
+            desc.update(precision=None, n_samples=min(n_samples, 3))
+            rep.count("fast_mode_large_enough_to_be_windowed")
         if gt is not None and ri % 2 == 0:
             desc["sampler_preinitialised"] = True
-        if ri % 5 == 4:
+        if ri % 5 == 4 and not windowed:
             after = ac.edited_case(rng, {"units": units, "spec": spec})
             if after is not None and after["edit"][0] == "move" and all(len(u) > 0 for u in after["units"]):
                 desc.update(units=after["units"], units_before=units, edit=after["edit"])
